@@ -402,5 +402,9 @@ class SED(object):
         apertures[np.log10(sed_wav) < log10_ap_interp.x[0]] = 10. ** log10_ap_interp.y[0]
         apertures[np.log10(sed_wav) > log10_ap_interp.x[-1]] = 10. ** log10_ap_interp.y[-1]
 
+        # The apertures were checked against the tabulated range above; remove
+        # the round-off of the log10 / 10** round trip at the ends of the range
+        apertures = np.clip(apertures, sed_apertures.min(), sed_apertures.max())
+
         # Interpolate and return only diagonal elements
         return flux_interp(apertures).diagonal()
